@@ -133,6 +133,7 @@ pub fn rule_pool(lang: LangId) -> Vec<RuleTxt> {
             r("app-swap", "(app (app ?f ?a) ?b)", "(app (app ?f ?b) ?a)"),
         ],
         LangId::Pay => vec![r("neg-neg", "(neg (neg ?a))", "?a"), r("tag-drop", "(tag 1 $x ?a)", "?a")],
+        LangId::Wide => vec![r("wd-rot", "(wd ?a ?b ?c ?d ?e ?f ?g ?h ?i ?j)", "(wd ?j ?a ?b ?c ?d ?e ?f ?g ?h ?i)"), r("wm-last", "(wm 1 $x ?a ?b ?c ?d ?e ?f ?g $y ?h)", "?a")],
         LangId::Fp => vec![
             r("add-comm", "(add ?a ?b)", "(add ?b ?a)"),
             r("mul-comm", "(mul ?a ?b)", "(mul ?b ?a)"),
